@@ -237,6 +237,8 @@ def run(repo, chk):
     chk.ob("R11.4", "tags._TagFactory:one-object-per-name", ok, tf_.where,
            "tag.X always returns the same Tag object (tags compare by identity)")
 
+    from .shared import activation_integrity_obligations
+    activation_integrity_obligations(repo, chk, "R11.5", "tag probes")
     # ---------------- R11.5
     keyed = False
     for hname, paths in H.items():
